@@ -260,6 +260,9 @@ func (in *Interp) outcome(fr *Frame, f Value) (res Value) {
 				panic(r)
 			}
 			res = in.classify(gp)
+			if len(in.events) < 20 {
+				in.events = append(in.events, "outcome: "+res.(string)+" | "+truncate(ropeDesc(in.panicText(gp)), 200)+" @ "+in.where())
+			}
 		}
 	}()
 	savedDepth := in.depth
